@@ -32,8 +32,11 @@ def run(ctx):
         ctx.trace("Trace_Congestion", tf, runs=rr["runs"], label=label, timeout=1500)
     ctx.cov["controller_calls"] = r["steps"] + r2["steps"] + r3["steps"]
     # live connections: a congestion-controlled packet leaves in normal mode only below the window
-    traces = ctx.e2e(E.plan(ctx, [("lossy", 8), ("replay", 2), ("clean", 3), ("tiny", 3)]))
+    traces = ctx.e2e(E.plan(ctx, [("lossy", 8), ("replay", 2), ("clean", 3), ("tiny", 3), ("handshake", 5)]))
     ctx.validate_families(traces, "Trace_SendGate", E.GATE_KINDS, per_endpoint=True)
+    # ... and the in-flight counter equals the unresolved congestion-controlled packets (the ledger of the Recovery
+    # specification, also across Retry and key-space discards)
+    ctx.validate_families(traces, "Trace_Recovery", E.RECOVERY_KINDS, per_endpoint=True, only=E.RECOVERY_ONLY)
     ctx.assume("the growth functions (CUBIC curve, HyStart++, the BBRv2 model) are not specified: between the old window and the cap any value is accepted; their numeric accuracy is outside this check")
     ctx.assume("'at most one reduction per round trip': a second shrink needs an acknowledgement of a packet sent after the first one; persistent congestion ends the epoch (RFC 9002 B.8)")
     ctx.assume("BBRv2: floor (4 datagrams), no overflow and the in-flight ledger only, as the property states")
